@@ -17,7 +17,8 @@ PROPERTY = "C19"
 LEVEL = "exploration"
 RULE = ("definitions generated from the documented SFDL grammar over the catalogue's data item names (depth <= 5, width "
         "<= 6, optional list names, random whitespace incl. none where legal, '#' comments) plus the shipped definitions; "
-        "for each a body with 0-2 elements per open list is built from the documented shape; bracket and name mutants; "
+        "for each a body with 0-2 elements per open list is built from the documented shape; bracket and name mutants; the 60 "
+        "pinned definitions of the known finding (known/c19_named_forms_corpus.json) with their recorded reading; "
         "distinct by definition text; non-trivial when the definition contains at least one list")
 ASSUMPTIONS = ["docs/firststeps/sfdl.md is the specification of shapes and key names", "duplicate keys inside one record, "
                "empty lists '<L>' and trailing text are undocumented and not generated", "a comment glued to a token is always followed by "
